@@ -19,14 +19,13 @@ def classified : List (String × String × String × String) := [
   ("packages/beff-core/src/ast/runtype.rs", "1 => vs.into_iter().next().expect(\"we just checked len\"),", "invariant", "guarded by an explicit check a few lines above"),
   ("packages/beff-core/src/ast/runtype.rs", "vs.into_iter().next().expect(\"we just checked len\")", "invariant", "guarded by an explicit check a few lines above"),
   ("packages/beff-core/src/frontend/mod.rs", "RuntypeName::SemtypeRecursiveGenerated(_) => unreachable!(", "invariant", "match arm excluded by the tag / kind dispatch of the caller"),
-  ("packages/beff-core/src/frontend/mod.rs", "TsEnumMemberId::Str(_) => unreachable!(),", "invariant", "match arm excluded by the tag / kind dispatch of the caller"),
   ("packages/beff-core/src/frontend/mod.rs", "assert_eq!(v, &schema);", "invariant", "C07: a generated name is defined once (insert_definition); re-definition happens with the same schema only"),
   ("packages/beff-core/src/frontend/mod.rs", "let key_type = values.into_iter().next().unwrap();", "invariant", "match arm excluded by the tag / kind dispatch of the caller"),
   ("packages/beff-core/src/frontend/mod.rs", "while let RuntypeKind::Ref(r) = &key.kind {", "loop", "bounded: consumes a finite list / strictly decreasing index / follows finished definitions only (fix D1)"),
   ("packages/beff-core/src/frontend/mod.rs", "while lines.first().is_some_and(|line| line.trim().is_empty()) {", "loop", "bounded: consumes a finite list / strictly decreasing index / follows finished definitions only (fix D1)"),
   ("packages/beff-core/src/frontend/mod.rs", "while lines.last().is_some_and(|line| line.trim().is_empty()) {", "loop", "bounded: consumes a finite list / strictly decreasing index / follows finished definitions only (fix D1)"),
   ("packages/beff-core/src/frontend/mod.rs", "while low < high {", "loop", "bounded: consumes a finite list / strictly decreasing index / follows finished definitions only (fix D1)"),
-  ("packages/beff-core/src/lib.rs", "panic!(", "invariant", "type-with-args name clash: names carry a running counter, clash needs two identical uuids"),
+  ("packages/beff-core/src/lib.rs", "while ctx", "loop", "bounded: the candidate name carries a counter that grows each round, the set of taken names is finite (fix D87)"),
   ("packages/beff-core/src/lib.rs", "while index < this_parts.len()", "loop", "bounded: consumes a finite list / strictly decreasing index / follows finished definitions only (fix D1)"),
   ("packages/beff-core/src/print/printer.rs", ".expect(\"everything should be resolved by now\");", "invariant", "named schemas are closed under references after extraction"),
   ("packages/beff-core/src/print/printer.rs", ".expect(\"we already checked the discriminator exists\")", "invariant", "guarded by an explicit check a few lines above"),
